@@ -521,6 +521,30 @@ CurClose(res) ==
   /\ wtx' = [wtx EXCEPT !.cur = <<>>]
   /\ Rest
 
+\* A read-only gap cursor (ReadableTable::lower_bound / upper_bound) on any table handle: the whole
+\* session is one step since nothing changes; ops and rs are the calls and their results in order
+RECURSIVE RCurWalk(_, _, _, _)
+RCurWalk(c, L, ops, rs) ==
+  IF ops = <<>> THEN TRUE
+  ELSE LET Rt == DOMAIN c \ L
+           nx == IF Rt = {} THEN None ELSE <<MinS(Rt), c[MinS(Rt)]>>
+           pv == IF L = {} THEN None ELSE <<MaxS(L), c[MaxS(L)]>>
+           op == ops[1]
+           L2 == CASE op = "next" -> (IF Rt = {} THEN L ELSE L \cup {MinS(Rt)})
+                   [] op = "prev" -> (IF L = {} THEN L ELSE L \ {MaxS(L)})
+                   [] OTHER -> L
+       IN /\ rs[1] = Ok(IF op \in {"peek_next", "next"} THEN nx ELSE pv)
+          /\ RCurWalk(c, L2, Tail(ops), Tail(rs))
+
+RCursor(src, n, b, upper, ops, res) ==
+  /\ ReadOk(src, n, "t")
+  /\ (src = "w" => wtx.cur = <<>>)
+  /\ Len(res.rs) = Len(ops)
+  /\ LET c == Content(src, n)
+         L == IF upper THEN {k \in DOMAIN c : BelowHi(k, b)} ELSE {k \in DOMAIN c : ~AboveLo(k, b)}
+     IN RCurWalk(c, L, ops, res.rs)
+  /\ UNCHANGED kvVars
+
 -----------------------------------------------------------------------------
 (* Multimap tables *)
 
